@@ -28,6 +28,7 @@ func init() {
 			checkEventBuffer(c, true)
 			checkFrontEndReadsBody(c)
 			checkErrorReplyReachesSink(c)
+			checkNoDeclaredLength(c)
 		},
 	})
 }
